@@ -7,7 +7,8 @@
 //!   `D <n> <json>`       after it (digests, counters, in-process violations: caught panics, oracle failures),
 //!   `H`                  once a second (liveness),
 //!   `U <stage> <sub>`    when its own monitor thread sees that a *single call* into the code under test has
-//!                        not returned for `watchdog` ms (drivers bump `PROGRESS` before each call),
+//!                        consumed `watchdog` ms of CPU time without returning (drivers bump `PROGRESS` before
+//!                        each call; CPU time, so that an oversubscribed machine cannot fake a hang),
 //!   `B <function>`       innermost repository function of the stalled thread (captured in a SIGUSR1 handler),
 //!   `A <stage> <sub>`    from a SIGABRT handler (stack overflow, allocation failure, abort()).
 //!
@@ -361,9 +362,25 @@ extern "C" fn on_abrt(_: libc::c_int) {
     }
 }
 
+fn process_cpu_ms() -> u64 {
+    let mut ts = libc::timespec { tv_sec: 0, tv_nsec: 0 };
+    unsafe {
+        libc::clock_gettime(libc::CLOCK_PROCESS_CPUTIME_ID, &mut ts);
+    }
+    ts.tv_sec as u64 * 1000 + ts.tv_nsec as u64 / 1_000_000
+}
+
+/// A stall is measured in **CPU time of this process**, not wall time: "one call into the code under test has
+/// consumed `watchdog_ms` of CPU without returning". On an oversubscribed machine a worker can be descheduled
+/// for many seconds; that is not a hang of the code under test. (The monitor and output threads use a
+/// negligible amount of CPU.) A call that blocks without using CPU is caught by the wall-clock limit of
+/// `WALL_FACTOR × watchdog_ms`.
+const WALL_FACTOR: u64 = 30;
+
 fn monitor(watchdog_ms: u64) {
     let mut last = PROGRESS.load(Ordering::Relaxed);
-    let mut stalled_ms = 0u64;
+    let mut cpu_at_progress = process_cpu_ms();
+    let mut wall_at_progress = std::time::Instant::now();
     let mut since_h = 0u64;
     let step = 50u64;
     loop {
@@ -378,11 +395,13 @@ fn monitor(watchdog_ms: u64) {
         let now = PROGRESS.load(Ordering::Relaxed);
         if now != last || !IN_CASE.load(Ordering::Relaxed) {
             last = now;
-            stalled_ms = 0;
+            cpu_at_progress = process_cpu_ms();
+            wall_at_progress = std::time::Instant::now();
             continue;
         }
-        stalled_ms += step;
-        if stalled_ms >= watchdog_ms {
+        let cpu_stalled = process_cpu_ms().saturating_sub(cpu_at_progress);
+        let wall_stalled = wall_at_progress.elapsed().as_millis() as u64;
+        if cpu_stalled >= watchdog_ms || wall_stalled >= WALL_FACTOR * watchdog_ms {
             raw_marker(b'U');
             // five stack samples of the stalled thread, 25 ms of execution apart
             let t0 = std::time::Instant::now();
@@ -390,7 +409,7 @@ fn monitor(watchdog_ms: u64) {
                 unsafe {
                     libc::pthread_kill(MAIN_THREAD.load(Ordering::Relaxed) as libc::pthread_t, libc::SIGUSR1);
                 }
-                while SAMPLES.lock().map(|g| g.len()).unwrap_or(0) <= k && t0.elapsed().as_millis() < 4000 {
+                while SAMPLES.lock().map(|g| g.len()).unwrap_or(0) <= k && t0.elapsed().as_millis() < 20_000 {
                     std::thread::sleep(Duration::from_millis(5));
                 }
                 std::thread::sleep(Duration::from_millis(25));
@@ -606,8 +625,9 @@ pub fn supervise_resumable(
     let stats = Mutex::new(SupStats::default());
     let error: Mutex<Option<String>> = Mutex::new(None);
     let stop = AtomicBool::new(false);
-    // backstop: the worker's own monitor should speak first; total silence means the whole process is wedged
-    let backstop = Duration::from_millis(opts.watchdog_ms + 12_000);
+    // backstop: the worker's own monitor speaks first (heartbeat every second, CPU-time watchdog, wall limit
+    // of WALL_FACTOR x watchdog); total silence for much longer than that means the whole process is wedged
+    let backstop = Duration::from_millis((WALL_FACTOR + 10) * opts.watchdog_ms + 60_000);
     std::thread::scope(|sc| {
         for _ in 0..opts.workers.max(1).min(n.max(1) as usize) {
             sc.spawn(|| {
@@ -734,6 +754,12 @@ pub fn supervise_resumable(
                             }
                         } else {
                             early_deaths = 0;
+                        }
+                        if f.kind.is_empty() && !kill && detail.starts_with("signal 9;") {
+                            // SIGKILL that we did not send: the environment (OOM killer, operator) removed the
+                            // worker. The code under test cannot raise SIGKILL on itself: machinery, not a verdict.
+                            fail(format!("worker was killed by SIGKILL from outside while running case {i}: {detail}"));
+                            break 'outer;
                         }
                         if f.kind.is_empty() {
                             f.kind = if detail.starts_with("signal") { "abort" } else { "exit" }.into();
